@@ -325,6 +325,17 @@ func (e *miniEval) run(stmts []ast.Stmt) (status int, rets []int64) {
 						break
 					}
 				}
+				// a helper of the package with two results, evaluated in place
+				if call, isC := ast.Unparen(s.Rhs[0]).(*ast.CallExpr); isC && (e.helpers || e.methods) {
+					if vals, ok := e.runHelper(call, 2); ok {
+						for i, l := range s.Lhs {
+							if id, isID := l.(*ast.Ident); isID && id.Name != "_" {
+								e.env[id.Name] = vals[i]
+							}
+						}
+						break
+					}
+				}
 			}
 			if len(s.Lhs) != len(s.Rhs) {
 				e.fail("tuple assignment")
@@ -814,20 +825,41 @@ func (e *miniEval) inlineMethod(call *ast.CallExpr) (int64, bool) {
 // value here) are bound to the parameters, every other argument stays opaque and is seen by the
 // hooks only. This is what makes a rule indifferent to a function being split into helpers.
 func (e *miniEval) inlineHelper(call *ast.CallExpr) (int64, bool) {
-	if !e.helpers || e.ctx == nil || e.depth > 3 {
+	if !e.helpers {
 		return 0, false
+	}
+	vals, ok := e.runHelper(call, 1)
+	if !ok {
+		return 0, false
+	}
+	if len(vals) == 0 {
+		return 0, true
+	}
+	return vals[0], true
+}
+
+// runHelper: see inlineHelper; nres is the number of results wanted (1 also admits none).
+func (e *miniEval) runHelper(call *ast.CallExpr, nres int) ([]int64, bool) {
+	if e.ctx == nil || e.depth > 3 {
+		return nil, false
 	}
 	f, ok := core.Callee(e.pk, call).(*types.Func)
 	if !ok || f.Pkg() == nil || f.Pkg().Path() != e.pk.PkgPath {
-		return 0, false
+		return nil, false
 	}
 	sig := f.Type().(*types.Signature)
-	if sig.Results().Len() > 1 || sig.Variadic() || sig.Params().Len() != len(call.Args) {
-		return 0, false
+	if sig.Variadic() || sig.Params().Len() != len(call.Args) {
+		return nil, false
+	}
+	if !(sig.Results().Len() == nres || (nres == 1 && sig.Results().Len() == 0)) {
+		return nil, false
+	}
+	if !e.helpers && len(call.Args) != 0 {
+		return nil, false // `methods` only: parameterless methods
 	}
 	d := e.ctx.P.FindDecl(core.Rel(f.FullName()))
 	if d == nil || d.Decl.Body == nil {
-		return 0, false
+		return nil, false
 	}
 	// the helper runs on the caller's variable map (the hooks of a rule evaluate argument expressions
 	// through the evaluator they were created with); the caller's variables are restored afterwards
@@ -843,7 +875,7 @@ func (e *miniEval) inlineHelper(call *ast.CallExpr) (int64, bool) {
 			e.env[k] = v
 		}
 	}()
-	sub := &miniEval{pk: d.Pkg, env: e.env, ctx: e.ctx, depth: e.depth + 1, methods: e.methods, helpers: true,
+	sub := &miniEval{pk: d.Pkg, env: e.env, ctx: e.ctx, depth: e.depth + 1, methods: e.methods, helpers: e.helpers,
 		call: e.call, hook: e.hook, tuple: e.tuple, rng: e.rng, dyn: e.dyn, maps: e.maps, lens: e.lens, tables: e.tables}
 	type binding struct {
 		name string
@@ -875,7 +907,7 @@ func (e *miniEval) inlineHelper(call *ast.CallExpr) (int64, bool) {
 		}
 	}
 	if e.unknown != "" {
-		return 0, false
+		return nil, false
 	}
 	for _, b := range binds {
 		sub.env[b.name] = b.val
@@ -892,16 +924,16 @@ func (e *miniEval) inlineHelper(call *ast.CallExpr) (int64, bool) {
 	e.steps += sub.steps
 	if sub.unknown != "" {
 		e.fail(sub.unknown)
-		return 0, false
+		return nil, false
 	}
 	switch {
 	case st == miniPanic:
 		e.fail("helper " + f.Name() + " panics")
-		return 0, false
+		return nil, false
 	case sig.Results().Len() == 0:
-		return 0, true
-	case st == miniReturn && len(rets) == 1:
-		return rets[0], true
+		return nil, true
+	case st == miniReturn && len(rets) == sig.Results().Len():
+		return rets, true
 	}
-	return 0, false
+	return nil, false
 }
